@@ -185,6 +185,35 @@ void root() {
     });
     wait_all_others();
   }
+  // afterwards, with nobody waiting any more: the same condition variable serves an exchange under ANOTHER mutex (legal: only
+  // concurrent waits must agree on the mutex)
+  if (gen(4) == 0) {
+    static PMutex *m2; static int flag2;
+    m2 = HX_API("p_mutex_new", 3, false, p_mutex_new()); flag2 = 0;
+    if (!m2) violate("new_returned_null", "", "constructor returned NULL");
+    int m2num = shim::last_created(shim::K_MUTEX);
+    spawn(0, [m2num]() {
+      if (!HX_API("p_mutex_lock", 3, false, p_mutex_lock(m2))) violate("lock_returned_false", "p_mutex_lock", "p_mutex_lock returned FALSE");
+      for (int guard = 0; ; guard++) {
+        SIM_READ(flag2);
+        if (flag2) break;
+        if (guard > 50) violate("wait_did_not_block", "p_cond_variable_wait", "wait with a second mutex keeps returning although the predicate is false and nobody signals");
+        if (!HX_API("p_cond_variable_wait", 1, false, p_cond_variable_wait(S->c1, m2))) violate("wait_returned_false", "p_cond_variable_wait", "wait returned FALSE on valid objects (condition variable used with a second mutex after the first one)");
+        if (shim::mutex_owner(m2num) != cur()->id) violate("wait_returned_without_mutex", "p_cond_variable_wait", "wait returned but the mutex is not owned by the caller");
+      }
+      if (!HX_API("p_mutex_unlock", 3, false, p_mutex_unlock(m2))) violate("unlock_returned_false", "p_mutex_unlock", "p_mutex_unlock returned FALSE");
+    });
+    spawn(0, []() {
+      if (gen(2)) yield_point();
+      if (!HX_API("p_mutex_lock", 3, false, p_mutex_lock(m2))) violate("lock_returned_false", "p_mutex_lock", "p_mutex_lock returned FALSE");
+      SIM_WRITE(flag2); flag2 = 1;
+      if (!HX_API("p_cond_variable_signal", 1, false, p_cond_variable_signal(S->c1))) violate("signal_returned_false", "p_cond_variable_signal", "signal returned FALSE");
+      if (!HX_API("p_mutex_unlock", 3, false, p_mutex_unlock(m2))) violate("unlock_returned_false", "p_mutex_unlock", "p_mutex_unlock returned FALSE");
+    });
+    wait_all_others();
+    HX_API_V("p_mutex_free", 3, false, p_mutex_free(m2));
+    probe("cond.reused_with_second_mutex");
+  }
   HX_API_V("p_cond_variable_free", 1, false, p_cond_variable_free(S->c1));
   HX_API_V("p_cond_variable_free", 2, false, p_cond_variable_free(S->c2));
   HX_API_V("p_mutex_free", 0, false, p_mutex_free(S->m));
